@@ -64,16 +64,17 @@ def gen_config(rng, mode=None, combo=None):
         kw["d"] = rng.pick([0.5, 1, 10, 100])
         kw["f"] = rng.pick([0, 0, 0.1, 1.0])
         kw["minsd"] = rng.pick([1e-6, 1e-3, 0.1])
-    if estim == "optimal_comparison":
+    if estim == "optimal_comparison" and rng.chance(0.7):  # (otherwise the estimator's documented default rate)
         kw["rate_error_2"] = rng.pick([0, 1e-5, 1e-4, 1e-3, 1e-2, 0.05, 0.1])
     if bet == "fixed_bet":
         kw["lam"] = rng.pick([0, 0.05, 0.25, 0.5, 0.9, 1.0]) / u  # lambda <= 1/u
     if bet == "agrapa":
         kw["lam"] = rng.pick([0, 0.1, 0.5, 1.0]) / u
-        c0 = rng.pick([0.1, 0.5, 0.9, 1 - 2 ** -20])
-        kw["c_grapa_0"] = c0
-        kw["c_grapa_max"] = rng.pick([c0, c0 + (1 - 2 ** -20 - c0) * 0.5, 1 - 2 ** -20])
-        kw["c_grapa_grow"] = rng.pick([0, 0.5, 3])
+        if rng.chance(0.7):  # (otherwise the bettor's documented defaults: c_grapa_0 = c_grapa_max = 1 - eps, no growth)
+            c0 = rng.pick([0.1, 0.5, 0.9, 1 - 2 ** -20])
+            kw["c_grapa_0"] = c0
+            kw["c_grapa_max"] = rng.pick([c0, c0 + (1 - 2 ** -20 - c0) * 0.5, 1 - 2 ** -20])
+            kw["c_grapa_grow"] = rng.pick([0, 0.5, 3])
     if test in ("KAPLAN_KOLMOGOROV", "KAPLAN_MARKOV", "KAPLAN_WALD"):
         kw["g"] = rng.pick([0, 0.0625, 0.125, 0.5, 0.875])
     random_order = True
